@@ -200,6 +200,11 @@ func runC02(r *sim.Run) {
 			c.taint["signull"] = true
 			r.Probe("gen_signatures_null")
 		}
+	case 5:
+		// an entity's entry is present but null - for one that will sign
+		// (its signature must simply be added) or for a bystander
+		obj["signatures"] = map[string]any{sim.Pick(t, []string{names[0], names[1], "foreign.example"}): nil}
+		r.Probe("gen_entity_signatures_null")
 	}
 	c.setWire(obj, drawStyle(t))
 	if len(c.cur) > 2048 {
@@ -311,6 +316,9 @@ func (c *c02) sign(e entity, where string) {
 	nsig := 0
 	for _, n := range sortedKeys(s1) {
 		ks1, isObj := s1[n].(map[string]any)
+		if v0, was := s0[n]; was && v0 == nil && s1[n] == nil && n != e.name {
+			continue // a bystander's entry that was null before stays as it was
+		}
 		c.check(isObj, "preserve", "signatures_shape", "signatures[%q] is not an object after SignJSON(%s)", n, e)
 		for _, k := range sortedKeys(ks1) {
 			nsig++
